@@ -682,4 +682,68 @@ theorem pinv_runFrom {H : Hist} {B : Nat} (hB : 1 < B) {n : Node} (hi : Inv H B 
 
 theorem recover_empty (H : Hist) (B S : Nat) : recover H B S Db.empty = .ok (fresh H) := by simp [recover, Db.empty]
 
+
+def Op.isGc : Op → Bool
+  | .gc _ _ => true
+  | _ => false
+
+/-- without GC steps every batch is a flush: each prefix of the batch list is the backend of the node
+right after one of its flushes, when its write cache is empty. -/
+theorem prefix_is_flush_point_nogc (H : Hist) (B : Nat) (n : Node) (ops : List Op) (hno : ∀ o ∈ ops, o.isGc = false)
+    (k : Nat) (hk : k ≤ (runFrom H B n ops).2.length) (hk0 : 0 < k) :
+    ∃ ops₁ ops₂, ops = ops₁ ++ ops₂ ∧ (runFrom H B n ops₁).1.cache = [] ∧
+      foldBatches ((runFrom H B n ops).2.take k) n.db = (runFrom H B n ops₁).1.db := by
+  induction ops generalizing n k with
+  | nil => simp [runFrom] at hk; omega
+  | cons o r ih =>
+    have hemit : (step H B n o).2 = none ∧ (step H B n o).1.db = n.db ∨
+        ∃ b, (step H B n o).2 = some b ∧ (step H B n o).1.cache = [] ∧ (step H B n o).1.db = applyBatch b n.db := by
+      cases o with
+      | headers upTo => left; simp only [step]; split <;> exact ⟨rfl, rfl⟩
+      | block => left; exact ⟨rfl, rfl⟩
+      | flush =>
+        simp only [step]
+        split
+        · left; exact ⟨rfl, rfl⟩
+        · right; exact ⟨_, rfl, rfl, (applyBatch_ofWrites _ _).symm⟩
+      | gc tgt g => have := hno (.gc tgt g) (by simp); simp [Op.isGc] at this
+    have hno' : ∀ o ∈ r, o.isGc = false := fun o ho => hno o (by simp [ho])
+    simp only [runFrom] at hk ⊢
+    rcases hemit with ⟨he, hdb⟩ | ⟨b, he, hc, hdb⟩
+    · rw [he] at hk ⊢
+      simp only [Option.toList, List.nil_append] at hk ⊢
+      obtain ⟨o1, o2, e, hc, hf⟩ := ih (step H B n o).1 hno' k hk hk0
+      refine ⟨o :: o1, o2, by simp [e], ?_, ?_⟩
+      · simpa [runFrom] using hc
+      · rw [hdb] at hf; simpa [runFrom] using hf
+    · rw [he] at hk ⊢
+      simp only [Option.toList, List.singleton_append, List.length_cons] at hk ⊢
+      obtain ⟨k', rfl⟩ : ∃ k', k = k' + 1 := ⟨k - 1, by omega⟩
+      simp only [List.take_succ_cons, foldBatches]
+      by_cases hk' : k' = 0
+      · subst hk'
+        refine ⟨[o], r, rfl, ?_, ?_⟩
+        · simpa [runFrom] using hc
+        · simp [runFrom, foldBatches, hdb]
+      · obtain ⟨o1, o2, e, hc', hf⟩ := ih (step H B n o).1 hno' k' (by omega) (by omega)
+        refine ⟨o :: o1, o2, by simp [e], ?_, ?_⟩
+        · simpa [runFrom] using hc'
+        · rw [hdb] at hf; simpa [runFrom] using hf
+
+/-- **crash_prefix_exact**: without GC steps, the node recovered from the first k ≥ 1 batches IS the
+uninterrupted node as it was right after the flush that issued batch k — every key of its database
+(blocks, transactions, conflict records, transfer logs, …) and every in-memory field. -/
+theorem crash_prefix_exact_aux (H : Hist) {B : Nat} (S : Nat) (hB : 1 < B) (ops : List Op) (hno : ∀ o ∈ ops, o.isGc = false)
+    (k : Nat) (hk : k ≤ (run H B ops).2.length) (hk0 : 0 < k) :
+    ∃ ops₁ ops₂, ops = ops₁ ++ ops₂ ∧
+      recover H B S (foldBatches ((run H B ops).2.take k) Db.empty) = .ok (run H B ops₁).1 := by
+  have hrun : run H B ops = runFrom H B (fresh H) ops := rfl
+  obtain ⟨o1, o2, e, hc, hf⟩ := prefix_is_flush_point_nogc H B (fresh H) ops hno k hk hk0
+  refine ⟨o1, o2, e, ?_⟩
+  have hdb0 : (fresh H).db = Db.empty := rfl
+  rw [hdb0] at hf
+  rw [hrun, hf]
+  exact recover_of_inv (inv_runFrom hB (inv_fresh H hB) o1) hc
+
+
 end NeoModel.Persist
